@@ -38,6 +38,7 @@ var validRequests = []string{
 	`subscription S{watch(id: "a"){str}}`,
 	`{__schema{types{name fields{name args{name defaultValue}}}} __type(name: "In"){inputFields{name defaultValue}}}`,
 	`query A{str} query B{num}`,
+	`{stray{items sub{items} __typename ...on LA{items}} strays{items(first: 1) __typename sub{__typename}}}`, `{obj{stray{items}} strays{...F}} fragment F on Lister{items sub{items}}`,
 	`{col(c: RED) big(x: 1, y: 1.5, t: "2020-01-02T03:04:05Z", id: 7) fail(s: "fail") when}`,
 }
 
